@@ -57,7 +57,17 @@ func (s *ModelServer) PullFanSpeed(request *traits.PullFanSpeedRequest, server t
 	return nil
 }
 
-func (s *ModelServer) ReverseFanSpeedDirection(ctx context.Context, request *traits.ReverseFanSpeedDirectionRequest) (*traits.FanSpeed, error) {
-	// TODO implement me
-	panic("implement me")
+func (s *ModelServer) ReverseFanSpeedDirection(_ context.Context, _ *traits.ReverseFanSpeedDirectionRequest) (*traits.FanSpeed, error) {
+	return s.model.UpdateFanSpeed(&traits.FanSpeed{}, resource.WithUpdatePaths("direction"), resource.InterceptBefore(func(old, new proto.Message) {
+		oldVal := old.(*traits.FanSpeed)
+		newVal := new.(*traits.FanSpeed)
+		switch oldVal.Direction {
+		case traits.FanSpeed_FORWARD:
+			newVal.Direction = traits.FanSpeed_BACKWARD
+		case traits.FanSpeed_BACKWARD:
+			newVal.Direction = traits.FanSpeed_FORWARD
+		default:
+			newVal.Direction = oldVal.Direction
+		}
+	}))
 }
